@@ -183,7 +183,7 @@ def real_failures(chk, rounds):
         failed_sec = text.split("Failed task(s):")[-1].split("Skipped task(s)")[0] if "Failed task(s):" in text else ""
         skipped_sec = text.split("Skipped task(s)")[-1] if "Skipped task(s)" in text else ""
         problems = []
-        if res.code != 1:
+        if res.code == 0 or res.code < 0:      # the property says non-zero (a negative code = killed by the harness's timeout)
             problems.append("cond run exited %s although task //:k failed (%s)" % (res.code, how))
         if ran["dep"] or ran["top"]:
             problems.append("dependents of the failed task were executed: %s" % ran)
@@ -235,12 +235,64 @@ def same_relative_name_in_two_packages(chk):
                     problems.append("//%s:run was not executed although //%s:setup succeeded" % (pkg, pkg))
                 elif ("E %s-setup" % pkg) not in ev or ev.index("S %s-run" % pkg) < ev.index("E %s-setup" % pkg):
                     problems.append("//%s:run started before //%s:setup had finished (events %r)" % (pkg, pkg, [e for e in ev if e]))
-        if res.code != (1 if fail_a else 0):
+        if (res.code == 0) == fail_a or res.code < 0:      # non-zero exactly when //a:setup fails
             problems.append("cond run exited %s: %r" % (res.code, text[-200:]))
         for msg in problems:
             chk.violation("impl-violation", "two packages with a task `setup` and a dependent `run` (deps=[\":setup\"]), //a:setup %s: %s" % ("fails" if fail_a else "succeeds", msg),
                           {"input": {"scenario": "same-relative-name", "a_setup_fails": fail_a}, "impl_observation": {"events": ev, "exit": res.code, "output": text[-600:]}, "oracle_verdict": msg},
                           match_key={"real": "same-relative-name"}, size=5)
+        if not problems:
+            chk.coverage["traces_validated_against_impl"] += 1
+
+
+def unlaunchable_tasks(chk):
+    """a task that CANNOT BE LAUNCHED -- the operating system refuses the command line (an embedded NUL byte, a
+    character that cannot be encoded for the operating system), or a combine task's output path is taken by a regular file -- is a failed task like
+    any other: its dependents are skipped, independent tasks run, a task already running is not abandoned, the failure
+    is named in the report and the exit status is non-zero.  (D34: such errors are not ConductorErrors; they escaped the
+    executor as tracebacks, the run stopped there and running tasks were left behind.)"""
+    import os
+    import time
+    import implrun
+    from implrun import strip_ansi
+
+    variants = {
+        "NUL byte in the command": 'run_command(name="k", run="echo a\\0b", parallelizable=True)\n',
+        "unencodable character in the command": 'run_command(name="k", run="echo \\ud800", parallelizable=True)\n',
+        "combine output path is a regular file": 'run_command(name="pre", run="echo x > $COND_OUT/../k.task", parallelizable=True)\ncombine(name="k", deps=[":pre"])\n',
+    }
+    for name, kdef in variants.items():
+        root = implrun.make_project({"COND": ""})
+        cond = (kdef
+                + 'run_command(name="slow", run="sleep 1.5; echo done > $COND_OUT/ran", parallelizable=True)\n'
+                + 'run_command(name="dep", run="touch $COND_OUT/ran", deps=[":k"], parallelizable=True)\n'
+                + 'run_command(name="ind", run="touch $COND_OUT/ran")\n'
+                + 'group(name="top", deps=[":slow", ":dep", ":ind"])\n')
+        open(os.path.join(root, "COND"), "w").write(cond)
+        res = implrun.run_cond(["run", "//:top", "-j", "2"], root, timeout=60)
+        t_exit = time.time()
+        chk.coverage["evaluations"] += 1
+        chk.count("real", "unlaunchable: " + name)
+        text = strip_ansi(res.out + res.err)
+        ran = {n: os.path.exists(os.path.join(root, "cond-out", n + ".task", "ran")) for n in ("slow", "dep", "ind")}
+        problems = []
+        if res.code == 0 or res.code < 0:
+            problems.append("cond run exited %s" % res.code)
+        if "Traceback" in text:
+            problems.append("the run ended in a traceback: %r" % text[-300:])
+        if ran["dep"]:
+            problems.append("the dependent //:dep of the unlaunchable task was executed")
+        if not ran["ind"]:
+            problems.append("the independent task //:ind was not executed")
+        if not ran["slow"]:
+            # was it abandoned (still running after cond returned)?
+            time.sleep(2.0)
+            late = os.path.exists(os.path.join(root, "cond-out", "slow.task", "ran"))
+            problems.append("cond run returned while //:slow had not finished (%s)" % ("it finished %.1f s later: left running, neither awaited nor terminated" % (time.time() - t_exit) if late else "it never finished"))
+        for msg in problems:
+            chk.violation("impl-violation", "real processes, a task that cannot be launched (%s): %s" % (name, msg),
+                          {"input": {"scenario": "unlaunchable", "variant": name, "cond": cond, "argv": ["run", "//:top", "-j", "2"]}, "impl_observation": {"exit": res.code, "output": text[-1200:], "ran": ran}, "oracle_verdict": msg},
+                          match_key={"real": "unlaunchable"}, size=5)
         if not problems:
             chk.coverage["traces_validated_against_impl"] += 1
 
@@ -367,6 +419,8 @@ def run_prop(prop, tier, seed, replay=None, extra_oracles=(), extra_part=None, e
                 chk.coverage["traces_validated_against_impl"] += 1
     if prop in ("C01", "C03", "C14", "C02"):
         same_relative_name_in_two_packages(chk)
+    if prop in ("C03", "C09"):
+        unlaunchable_tasks(chk)
     if prop == "C04":
         real_slots(chk, 4 if tier == "quick" else 24)
         from reaper_util import stopped_task
